@@ -357,7 +357,7 @@ PROPS['C07'] = dict(
 )
 
 PROPS['C12'] = dict(
-    units=[dict(target=T('h_interp', parts=3), quick=dict(scale=1.0), thorough=dict(scale=5.0, shards=16))],
+    units=[dict(target=T('h_interp', parts=4), quick=dict(scale=1.0), thorough=dict(scale=5.0, shards=16))],
     rule=('random abscissa sets: windows of >= 2 points (whole grid or strict sub-window) of grids with 2..9 points incl. two-point inputs and gap ratios up to 128; ordinates; order 1..5; boundary sets: default (35%) or generated (node, derivative 1..order, value) tuples incl. duplicates. '
           'The exact solve (Gaussian elimination in Q) decides unique solvability; exactly singular problems are discarded and counted. Oracle A (interpolate<Q,order,exact solver>): support == input window; both adjacent pieces take y_i at x_i; derivatives 1..order-1 continuous at interior nodes; '
           'every boundary row holds; the default set is {(first,1),(last,1),(first,2),...} = 0; all exact, checked both through the row formulation and through the absolute-basis pieces. Oracle B (interpolateUsingEigen<double|long double>): the same conditions, residuals evaluated exactly from the returned coefficients, '
@@ -437,10 +437,11 @@ PROPS['C17'] = dict(
 def _c19_units():
     a = lambda *x: ['--property', 'C19'] + list(x)
     us = [dict(target=T('h_archetype', deps=['harness/common/qsolver.h']), quick=dict(args=a(), scale=1.0), thorough=dict(args=a(), scale=6.0, shards=4)),
+          dict(target=T('h_archetype_static', kind='plain', extra_flags=['-O1']), quick=dict(args=a(), scale=1.0), thorough=dict(args=a(), scale=1.0)),
           dict(target=T('h_gen', parts=4), quick=dict(args=a('--prefix', 'exact'), scale=0.25), thorough=dict(args=a('--prefix', 'exact'), scale=1.0, shards=4)),
           dict(target=T('h_arith', parts=4), quick=dict(args=a(), scale=0.2), thorough=dict(args=a(), scale=1.0, shards=4)),
           dict(target=T('h_prim', parts=5), quick=dict(args=a(), scale=0.25), thorough=dict(args=a(), scale=1.0, shards=4)),
-          dict(target=T('h_interp', parts=3), quick=dict(args=a('--prefix', 'exact-solver'), scale=0.3), thorough=dict(args=a('--prefix', 'exact-solver'), scale=1.0, shards=4))]
+          dict(target=T('h_interp', parts=4), quick=dict(args=a('--prefix', 'exact-solver'), scale=0.3), thorough=dict(args=a('--prefix', 'exact-solver'), scale=1.0, shards=4))]
     for k in (0, 1, 2):
         t = T('cat_%02d' % k, src=['harness/expr_catalog/cat_%02d.cpp' % k], deps=['harness/expr_common.h'])
         us.append(dict(target=t, quick=dict(args=a(), scale=0.3), thorough=dict(args=a(), scale=2.0)))
@@ -455,6 +456,7 @@ PROPS['C19'] = dict(
     build_failure_is_violation=True,
     rule=('configuration x inputs. (1) Compile check: h_archetype.cpp explicitly instantiates every class template of the library (Grid, Support, Spline<0..4>, BSplineGenerator, SplineOperator, ScalarMultiplication, OperatorProduct, OperatorSum, LinearForm, BilinearForm, Boundary, ISolver) with the archetype scalar Q - only default/copy construction, explicit construction from int, + - * / and compound forms, unary minus, six comparisons; '
           'no implicit conversion, no <cmath>, no numeric_limits, no streaming - and calls every member template and free function template incl. interpolate<Q,order,user solver>; every other exact harness (C01-C08, C10-C15) compiles the library with the same type. A compile failure is the violation (replay = compiler log). '
+          '(1b) h_archetype_static.cpp (g++): a table of forms / evaluations / predicates computed from a namespace-scope initialiser must equal the same calls made in main() and the textbook values (the type need not be constant-initialisable). '
           '(2) Exactness: an API sweep over generated inputs (600 cases x ~45 operations) plus reduced runs of the exact sub-checks of C01, C03, C04, C05/C06/C07 (24 catalogue programs) and C12: all results exact. Thorough adds boost::multiprecision::cpp_rational (exact agreement) and cpp_bin_float_quad (1e-24). '
           'Non-trivial: operand with >= 1 interval (sweep); the rules of the reused sub-checks otherwise.'),
     technique='archetype-type instantiation (compile check over all templates) + rapidcheck generation with exact comparison against the reference model',
